@@ -1,5 +1,9 @@
 import L21.Props.C20
+import L21.Props.C20K
 #print axioms L21.Determ.c20_pi_independent
 #print axioms L21.Determ.c20_sorted
 #print axioms L21.Determ.c20_same_entries
 #print axioms L21.Determ.c20_sites_covered
+#print axioms L21.Determ.c20_sorted_key_independent
+#print axioms L21.Determ.c20_number_only_is_order_dependent
+#print axioms L21.RawProto.c20_export_abstract_order_free
